@@ -7,7 +7,8 @@
    WORLD    = product '|' product ...     product = name ',' version ',' edge ';' edge ...
    edge     = name ':' optstr ':' optstr ':' 0/1       (line version, resolved version, optional)
    optstr   = 'N' | 'S' enc
-   entries  = name ':' optstr ':' 0/1 ':' depth  joined by ';'
+   node     = name ':' optstr ':' found(0/1)
+   entries  = node ':' optional(0/1) ':' depth  joined by ';'
    QUERIES  = name ':' optstr  joined by ';' *)
 let dec_opt (s : string) : ascii list option =
   if s = "N" then None else Some (dec_str (String.sub s 1 (String.length s - 1)))
@@ -25,9 +26,10 @@ let dec_world (s : string) : ((ascii list * ascii list) * edge list) list =
     | [n; v; es] -> ((dec_str n, dec_str v), List.map dec_edge (split_sep ';' es))
     | _ -> failwith "bad product") (split_sep '|' s)
 
-let enc_node ((n, v) : ascii list * ascii list option) : string = enc_str n ^ ":" ^ enc_opt v
+let enc_node (((n, v), r) : (ascii list * ascii list option) * bool) : string =
+  enc_str n ^ ":" ^ enc_opt v ^ ":" ^ field_of_bool r
 
-let enc_entries (l : (((ascii list * ascii list option) * bool) * nat) list) : string =
+let enc_entries (l : ((((ascii list * ascii list option) * bool) * bool) * nat) list) : string =
   String.concat ";" (List.map (fun ((p, o), d) ->
     enc_node p ^ ":" ^ field_of_bool o ^ ":" ^ string_of_int (int_of_nat d)) l)
 
@@ -45,12 +47,12 @@ let handle (f : string array) : string =
   match f.(0) with
   | "deps" | "depsp" ->
     let w = dec_world f.(1) in
-    let top = (dec_str f.(2), Some (dec_str f.(3))) in
+    let top = ((dec_str f.(2), Some (dec_str f.(3))), true) in
     let topo = bool_of_field f.(4) in
     show_entries ((if f.(0) = "deps" then dependent_products else dependent_products_pinned) (fuel_for w) w top topo)
   | "topo" ->
     let w = dec_world f.(1) in
-    let top = (dec_str f.(2), Some (dec_str f.(3))) in
+    let top = ((dec_str f.(2), Some (dec_str f.(3))), true) in
     (match topo_graph (fuel_for w) w top with
      | Err k -> "err\t" ^ err_name k
      | Ok g ->
